@@ -13,7 +13,7 @@ Step == l' = l + 1 /\ Mark(l)
 TInit == stage = "trace" /\ msg = 0 /\ kind = "trace" /\ input = 0 /\ l = 1 /\ HWMInit
 TReset    == Is("Reset") /\ UNCHANGED hv
                /\ Step
-TReqCase  == Is("ReqCase") /\ UNCHANGED hv /\ H!ReqOK(E.in, E.out)
+TReqCase  == Is("ReqCase") /\ UNCHANGED hv /\ H!ReqOKUnder(E.mux, E.canon, E.in, E.out, E.client_status)
                /\ Step
 TRespCase == Is("RespCase") /\ UNCHANGED hv /\ H!RespOK(E.in, E.out)
                /\ Step
